@@ -12,7 +12,7 @@ SIZE_CLASSES = [8, 16, 24, 32, 48, 64, 80, 96, 112, 128, 144, 160, 176, 192, 208
 TRUSTED = [
     "Lean 4.33 kernel (thorough tier: re-checked with leanchecker)",
     "axioms admitted for property theorems: propext, Classical.choice, Quot.sound only (audited with #print axioms on every run); no native_decide, no bv_decide, no sorry",
-    "tools/extract (go/parser based translator of constants, schema, type tags, package variables into LzModel/Generated/Facts.lean)",
+    "tools/extract (go/parser based translator of constants, schema, type tags, package variables into LzModel/Generated/Facts.lean, and of the bodies of the small pure functions into Generated/Code.lean; the translator itself is exercised by tools/gen_difftest.sh and tools/gen_selftest.sh)",
     "harness: generators, canonicaliser of outputs, Go oracles; lzdriver line protocol",
     "statements of the theorems and the reference semantics in LzModel/Basic.lean (copyRef, expandSeqs, expand, lcpLen)",
     "modelled, not verified: word-at-a-time byte comparison (lcp/lcs/matchLen bit tricks), bitset word layout, DivSufSort internals, Go runtime (append growth, copy/memmove, bounds checks), encoding/json, reflect, slices.Sort",
@@ -111,8 +111,8 @@ prop("C15", "proof", "refinement of ParserBuffer to (fed, Off) with the 7-byte m
      [S("p-view", 300, 5000, ["p.shrink.effective", "p.readat.pastend", "p.byteat.end", "p.write.full", "p.readfrom.full", "p.reset.data"]),
       S("p-bigbuf", 8, 200, ["p.bigbuf", "p.shrink.effective", "p.readfrom.full"])],
      "as C01", GEN_RULE, "§8 C15")
-prop("C16", "proof", "NewParser ⇔ Verify∘SetDefaults over Int fields; panic guards in the model are values; boundary configurations through several fills under recover and watchdog",
-     "Lean 4 proof + differential correspondence on wild configurations",
+prop("C16", "proof", "NewParser ⇔ Verify∘SetDefaults over Int fields; the bodies of every SetDefaults/Verify are re-translated from the Go source on every run and proved equal to the model (GenProps); panic guards in the model are values; boundary configurations through several fills under recover and watchdog; large geometries (oracle only)",
+     "Lean 4 proof + regenerated Go->Lean translation of the configuration code + differential correspondence on wild configurations",
      [S("c-config", 300, 5000, ["c.newparser.accepted", "c.newparser.rejected"]), S("p-general", 200, 3000, ["p.parse.matches"]), S("p-wrap", 100, 1500, ["w.eof"]), S("p-large", 2, 60, ["p.parse.matches", "p.match.offset>=64K"], hang="120s")],
      "BufferSize ≤ MaxInt32 for GSAP/OSAP is a stated bound (D18)", GEN_RULE, "§8 C16")
 prop("C17", "proof", "n, k, l and Off exactness as part of the decoder refinement; scripts biased to a full buffer with already-read bytes",
@@ -123,12 +123,12 @@ prop("C18", "proof", "writer scripts with every placement of short writes and er
      "Lean 4 proof + differential correspondence with fault-injecting writers",
      [S("dd-faults", 300, 5000, ["dd.flush.err", "dd.flush.ok", "d.wblk.ok"], hang="10s")],
      "as C06", GEN_RULE, "§8 C18")
-prop("C19", "proof", "right/left maximality from k = lcpLen exactly (Lean); run clause: oracle on run-heavy scripts; BDHP and GSAP(BufferSize > WindowSize) are known findings",
-     "Lean 4 proof (maximality) + run-heavy differential correspondence",
+prop("C19", "proof", "right/left maximality from k = lcpLen exactly (Lean); run clause decided by proof for all seven parsers: proved for every reachable state of HP, BHP, DHP (table freshness invariant), OSAP (exchange argument on C11) and GSAP with BufferSize <= WindowSize; refuted with kernel-checked witnesses and bounded for BUP, BDHP and GSAP(BufferSize > WindowSize), which are known findings; run-heavy and large-geometry scripts search the implementation",
+     "Lean 4 proof (maximality, freshness invariant over all histories, exchange argument) + run-heavy differential correspondence",
      [S("p-runs", 300, 5000, ["p.runblock", "p.match.toblockend"]), S("p-general", 100, 2000, ["p.match.backcheck"]), S("p-large", 2, 60, ["p.parse.matches", "p.match.offset>=64K"], hang="120s")],
-     "run clause for BDHP/GSAP: known findings", GEN_RULE, "§8 C19")
-prop("C20", "proof", "JSON round trip generic over the regenerated schema (union covers fields, tags injective by decide), SetDefaults idempotence, reported configuration; arbitrary JSON documents compared with encoding/json",
-     "Lean 4 proof over the regenerated schema + differential correspondence with encoding/json",
+     "run clause for BUP, BDHP, GSAP(BufferSize > WindowSize): known findings with proven upper bounds; OSAP under Int32OK (D18)", GEN_RULE, "§8 C19, §13.2")
+prop("C20", "proof", "JSON round trip generic over the regenerated schema (union covers fields, tags injective by decide), SetDefaults idempotence (model proved equal to the re-translated Go bodies, GenProps), reported configuration; arbitrary JSON documents compared with encoding/json",
+     "Lean 4 proof over the regenerated schema and the regenerated Go->Lean translation + differential correspondence with encoding/json",
      [S("c-config", 300, 5000, ["c.marshal", "c.json.accepted", "c.json.rejected", "c.defaults"])],
      "encoding/json and reflect trusted; strings are valid UTF-8", GEN_RULE, "§8 C20")
 
@@ -153,7 +153,7 @@ man = {
     "engines": [
         {"name": "lean-model", "path": "lean", "serves_properties": sorted(P), "kind_free_text": "Lean 4 executable model (LzModel), proofs (LzProofs), compiled driver lzdriver"},
         {"name": "harness", "path": "harness", "serves_properties": sorted(P), "kind_free_text": "Go harness: seeded script generators, in-process execution of the real code (-tags verif), oracles"},
-        {"name": "extract", "path": "tools/extract", "serves_properties": ["C13", "C16", "C20"], "kind_free_text": "go/ast translator regenerating LzModel/Generated/Facts.lean on every run"},
+        {"name": "extract", "path": "tools/extract", "serves_properties": ["C03", "C04", "C11", "C13", "C15", "C16", "C20"], "kind_free_text": "go/ast translator regenerating LzModel/Generated/Facts.lean (constants, schema, tags, package state) and Generated/Code.lean (Lean translation of the bodies of the configuration functions, XZCost, hashValue, Block.Len) on every run"},
     ],
     "checks": [],
     "not_applicable": [],
